@@ -5,7 +5,8 @@ import RvModel.Hand.DispatchC03
 import RvModel.Hand.DispatchC08
 import RvModel.Hand.DispatchC12
 import RvModel.Hand.DispatchC14
+import RvModel.Hand.DispatchC13B
 /- all hand-written driver entries (integrator-maintained) -/
 namespace HandDispatch
-def table : List (String × Rd String) := tableC01A ++ tableC13 ++ tableC01B ++ tableC01C ++ tableC03 ++ tableC08 ++ tableC12 ++ HandDispatchC14.tableC14
+def table : List (String × Rd String) := tableC01A ++ tableC13 ++ tableC01B ++ tableC01C ++ tableC03 ++ tableC08 ++ tableC12 ++ HandDispatchC14.tableC14 ++ tableC13B
 end HandDispatch
